@@ -683,7 +683,9 @@ theorem mkdirP_wf (fs : FS) (f : String) :
           · subst hqe; exact hgrp
           · obtain ⟨o, a, hc⟩ := hgrp
             exact hw.2 cur _ hc q hqc hqe
-        exact ih _ _ h1 P hw' ⟨h.next, [], by simp [lookupK_setEntry]⟩ (by simpa using hm)
+        have hg' : IsGroup (lookupK (setEntry h.entries (cur ++ [x]) (.group h.next [])) (cur ++ [x])) :=
+          ⟨h.next, [], by simp [lookupK_setEntry]⟩
+        exact ih _ _ h1 P hw' hg' (by simpa using hm)
     | some e =>
       simp only [hl] at hm
       cases e with
@@ -800,8 +802,8 @@ theorem placeAt_ok {fs : FS} {f : String} {dp : Path} {new : H5File → Entries 
           by_cases hsh : sharedAt h1.entries P = true
           · simp [hsh] at h
           · simp only [hsh] at h
-            simp only [Prod.mk.injEq, and_true] at h
-            exact ⟨h0, h1, P, x, rfl, dropLast_append_getLast hx, hm, hl, h.symm⟩
+            have h' := (Prod.mk.inj h).1
+            exact ⟨h0, h1, P, x, rfl, dropLast_append_getLast hx, hm, hl, h'.symm⟩
 
 /-- consequences of a successful `placeAt` on a well-formed file system -/
 theorem placeAt_facts {fs : FS} (hw : WF fs) {f : String} {dp : Path} {new : H5File → Entries × Nat}
@@ -856,6 +858,136 @@ theorem placeAt_facts {fs : FS} (hw : WF fs) {f : String} {dp : Path} {new : H5F
     simp [this, hm]
   · unfold lookupE; rw [hg]
     cases hk : lookupK h0.entries (P ++ [x]) with
-    | none => rfl
+    | none => simpa using hk
     | some e => rw [a1 _ _ hk] at hl; simp at hl
+
+/-! ### reading through a placed region -/
+
+theorem Resolves.det {fs : FS} {f : String} {p : Path} {l l' : Loc}
+    (h : Resolves fs f p l) (h' : Resolves fs f p l') : l = l' := by
+  obtain ⟨n, hn⟩ := h
+  obtain ⟨m, hm⟩ := h'
+  have a := resolveN_mono (Sub.refl fs) n (max n m) (by omega) f p l hn
+  have b := resolveN_mono (Sub.refl fs) m (max n m) (by omega) f p l' hm
+  rw [a] at b
+  exact Option.some.inj b
+
+theorem coolerEntry_some {o : Option Entry} (h : coolerEntry o = true) : ∃ oid a, o = some (.group oid a) ∧ fmtOK a = true := by
+  cases o with
+  | none => simp [coolerEntry] at h
+  | some e =>
+    cases e with
+    | group oid a => exact ⟨oid, a, rfl, by simpa [coolerEntry] using h⟩
+    | dataset c => simp [coolerEntry] at h
+    | soft t => simp [coolerEntry] at h
+    | ext g t => simp [coolerEntry] at h
+
+theorem ReadsAt.mono {fs fs' : FS} (hs : Sub fs fs') {l : Loc} {c : Nat} (h : ReadsAt fs l c) : ReadsAt fs' l c := by
+  obtain ⟨h1, ⟨o, a, h2⟩, h3⟩ := h
+  obtain ⟨oid, a', he, hf⟩ := coolerEntry_some h1
+  refine ⟨?_, ⟨o, a, hs.2 _ _ _ h2⟩, hs.2 _ _ _ h3⟩
+  rw [hs.2 _ _ _ he]; simpa [coolerEntry] using hf
+
+theorem Reads.mono {fs fs' : FS} (hs : Sub fs fs') {f : String} {p : Path} {c : Nat} (h : Reads fs f p c) :
+    Reads fs' f p c := by
+  obtain ⟨l, hl, hr⟩ := (reads_iff _ _ _ _).1 h
+  exact (reads_iff _ _ _ _).2 ⟨l, hl.mono hs, hr.mono hs⟩
+
+/-- a region that is, entry for entry, a copy (up to object ids) of the region at `(g, S)` -/
+def CopyOf (fs : FS) (g : String) (S : Path) (new : Entries) : Prop :=
+  ∃ d, ∀ r, lookupK new r = (lookupE fs g (S ++ r)).map (Entry.shift d)
+
+theorem placed_copy_reads {fs : FS} (hw : WF fs) {f : String} {dp : Path} {new : H5File → Entries × Nat}
+    {ex : ErrClass} {fs' : FS} (h : placeAt fs f dp new ex = (fs', .ok))
+    {g : String} {S : Path} (hc : ∀ h1, CopyOf fs g S (new h1).1) {c : Nat} (hr : ReadsAt fs (g, S) c) :
+    Reads fs' f dp c := by
+  obtain ⟨h1, P, x, hdp, _, hres, hlk, _, _, _, _⟩ := placeAt_facts hw h
+  obtain ⟨d, hd⟩ := hc h1
+  obtain ⟨r1, ⟨o2, a2, r2⟩, r3⟩ := hr
+  obtain ⟨oid, a, he, hf⟩ := coolerEntry_some r1
+  simp only at he r2 r3
+  have e0 : lookupE fs' f (P ++ [x]) = some (.group (oid + d) a) := by
+    have := hlk []
+    simp only [List.append_nil] at this
+    rw [this, hd []]; simp [he, Entry.shift]
+  have e1 : lookupE fs' f (P ++ [x] ++ ["pixels"]) = some (.group (o2 + d) a2) := by
+    rw [hlk, hd]; simp [r2, Entry.shift]
+  have e2 : lookupE fs' f (P ++ [x] ++ ["pixels", "count"]) = some (.dataset c) := by
+    rw [hlk, hd]; simp [r3, Entry.shift]
+  rw [reads_iff]
+  refine ⟨(f, P ++ [x]), ?_, ?_, ⟨_, _, e1⟩, e2⟩
+  · rw [hdp]; exact Resolves.snoc_obj hres e0 (Or.inl ⟨_, _, rfl⟩)
+  · simp only; rw [e0]; simpa [coolerEntry] using hf
+
+theorem Entry.shift_zero (e : Entry) : Entry.shift 0 e = e := by cases e <;> simp [Entry.shift]
+
+theorem copyOf_getRegion {fs : FS} {g : String} {hs : H5File} (hg : getFile fs g = some hs) (S : Path) :
+    CopyOf fs g S (getRegion hs.entries S) := by
+  refine ⟨0, fun r => ?_⟩
+  rw [lookupK_getRegion]
+  unfold lookupE; rw [hg]
+  cases lookupK hs.entries (S ++ r) <;> simp [Entry.shift_zero]
+
+theorem copyOf_shift {fs : FS} {g : String} {hs : H5File} (hg : getFile fs g = some hs) (S : Path) (d : Nat) :
+    CopyOf fs g S (shiftOids d (getRegion hs.entries S)) := by
+  refine ⟨d, fun r => ?_⟩
+  rw [lookupK_shiftOids, lookupK_getRegion]
+  unfold lookupE; rw [hg]
+
+theorem placed_soft_reads {fs : FS} (hw : WF fs) {f : String} {dp : Path} {sp : Path} {nx : H5File → Nat}
+    {ex : ErrClass} {fs' : FS}
+    (h : placeAt fs f dp (fun h1 => ([([], .soft sp)], nx h1)) ex = (fs', .ok))
+    {c : Nat} (hr : Reads fs f sp c) : Reads fs' f dp c := by
+  obtain ⟨h1, P, x, hdp, hsub, hres, hlk, _, _, _, _⟩ := placeAt_facts hw h
+  obtain ⟨l, hl, hra⟩ := (reads_iff _ _ _ _).1 hr
+  rw [reads_iff]
+  refine ⟨l, ?_, hra.mono hsub⟩
+  rw [hdp]
+  refine Resolves.snoc_soft hres (t := sp) ?_ (hl.mono hsub)
+  have := hlk []
+  simpa [lookupK] using this
+
+theorem placed_ext_reads {fs : FS} (hw : WF fs) {f : String} {dp : Path} {sf : String} {sp : Path} {nx : H5File → Nat}
+    {ex : ErrClass} {fs' : FS}
+    (h : placeAt fs f dp (fun h1 => ([([], .ext sf sp)], nx h1)) ex = (fs', .ok))
+    {c : Nat} (hr : Reads fs sf sp c) : Reads fs' f dp c := by
+  obtain ⟨h1, P, x, hdp, hsub, hres, hlk, _, _, _, _⟩ := placeAt_facts hw h
+  obtain ⟨l, hl, hra⟩ := (reads_iff _ _ _ _).1 hr
+  rw [reads_iff]
+  refine ⟨l, ?_, hra.mono hsub⟩
+  rw [hdp]
+  refine Resolves.snoc_ext hres (g' := sf) (t := sp) ?_ (hl.mono hsub)
+  have := hlk []
+  simpa [lookupK] using this
+
+/-! ### opening the destination -/
+
+theorem lookupE_absent {fs : FS} {f : String} (h : getFile fs f = none) (k : Path) : lookupE fs f k = none := by
+  unfold lookupE; rw [h]
+
+theorem afterOpen_sub {fs : FS} {df : String} {ow : Bool} (hT : ow = true → getFile fs df = none) :
+    Sub fs (afterOpen fs df ow) := by
+  unfold afterOpen
+  by_cases hc : ((getFile fs df).isNone || ow) = true
+  · simp only [hc, if_true]
+    have hnone : getFile fs df = none := by
+      cases ow with
+      | true => exact hT rfl
+      | false => simpa using hc
+    constructor
+    · intro g hg
+      rw [getFile_setFile]
+      by_cases e : df = g <;> simp [e, hg]
+    · intro g k e hk
+      rw [lookupE_setFile]
+      by_cases e' : df = g
+      · subst e'; rw [lookupE_absent hnone] at hk; simp at hk
+      · simp [e', hk]
+  · simp only [hc]; exact Sub.refl fs
+
+theorem afterOpen_wf {fs : FS} (hw : WF fs) (df : String) (ow : Bool) : WF (afterOpen fs df ow) := by
+  unfold afterOpen
+  split
+  · exact wf_setFile hw wf_emptyFile
+  · exact hw
 end Cooler.C15
